@@ -62,7 +62,7 @@ struct Plan {
 enum Kind { K_EXIT = 0, K_SIGNAL, K_ABORT, K_ASSERT, K_NONTERM, K_CANARY, K_BADFREE, K_SANITIZER, K_HARNESS };
 static const char *const kind_name[] = {"exit", "signal", "abort", "assert", "nontermination", "heap-canary", "bad-free", "sanitizer", "harness"};
 
-enum Fired { F_ALLOC = 1, F_READ = 2, F_WRITE = 4, F_FOPEN = 8, F_FREOPEN = 16, F_EOF = 32, F_FLIP = 64, F_TRIPWIRE = 128 };
+enum Fired { F_ALLOC = 1, F_READ = 2, F_WRITE = 4, F_FOPEN = 8, F_FREOPEN = 16, F_EOF = 32, F_FLIP = 64, F_TRIPWIRE = 128, F_RENAME = 256 };
 
 struct Res {
 	int kind = K_HARNESS;
